@@ -607,8 +607,17 @@ def _roundtrip(ctx, rng, h, bname, plain, rewrite_tags):
             ctx.fail(key + ":late-effect", "%s; the importer carried on and raised %s@%s at the later commit %s"
                      % (msg, e.typename, e.where, failing), dict(detail, importer_error=e.text[:600], **det))
         else:
-            kinds = sorted({x for v in roles_by_mark.get(failing, {}).values() for x in v})
-            ctx.fail("import:raised:%s@%s" % (e.typename, e.where), "%scommit %s (commands: %s): %s" % (what, failing, kinds, e.text[:1200]),
+            roles = roles_by_mark.get(failing, {})
+            kinds = sorted({x for v in roles.values() for x in v})
+            srcs = [p_ for p_, v in roles.items() if "R-src" in v]
+            reused = [p_ for p_ in srcs if roles[p_] & {"M", "R-dst"} or any(q.startswith(p_ + "/") and roles[q] & {"M", "R-dst"} for q in roles)]
+            if reused:
+                key = "import:raised:rename-source-path-reused-in-same-commit"
+            elif srcs:
+                key = "import:raised:commit-with-renames:%s" % e.typename
+            else:
+                key = "import:raised:%s@%s" % (e.typename, e.where)
+            ctx.fail(key, "%scommit %s (commands: %s): %s@%s %s" % (what, failing, kinds, e.typename, e.where, e.text[:1200]),
                      dict(detail, failing_mark=failing and failing.decode(), commands=cmds_by_mark.get(failing),
                           stream_tail=d_[-1200:].decode("latin-1")))
         ctx.note(("import-raised", mode), nontrivial=False)
